@@ -68,6 +68,8 @@ type c12Case struct {
 	// WriteErr: the handler's writes fail from then on (tail: the TCP connection is dropped instead of a close frame)
 	GoneAfter int  `json:"gone_after,omitempty"`
 	WriteErr  bool `json:"write_err,omitempty"`
+	// kind "cold" (c12cold.go): K concurrent requests against a cold schema-version cache
+	Cold *c12ColdCase `json:"cold,omitempty"`
 }
 
 // ---- outcome (child → parent)
@@ -319,6 +321,8 @@ func (c *c12Child) run(cs *c12Case) c12Outcome {
 		return c.runGone(cs)
 	case "tail":
 		return c.runTail(cs)
+	case "cold":
+		return c.runCold(cs)
 	}
 	if cs.Kind != "" && cs.Kind != "http" {
 		return c.runStage(cs)
